@@ -867,6 +867,48 @@ def Task_Start : String :=
 def Task_dtor : String :=
   "~Task<V, E>() { if ((Valid() && (!Ready()))) { move((*this)).Cancel() } }"
 
+def CoSrc_await_hpp : String :=
+  "#pragma once #include <yaclib/async/future.hpp> #include <yaclib/coro/await_inline.hpp> #include <yaclib/coro/coro.hpp> #include <yaclib/coro/detail/await_awaiter.hpp> #include <yaclib/util/type_traits.hpp> namespace yaclib { template <typename V, typename E> YACLIB_INLINE auto Await(Task<V, E>& task) noexcept { YACLIB_ASSERT(task.Valid()); return detail::TransferAwaiter{UpCast<detail::BaseCore>(*task.GetCore())}; } template <typename Waited, typename = std::enable_if_t<is_waitable_v<Waited>>> YACLIB_INLINE auto Await(Waited& waited) noexcept { return AwaitInline(waited); } template <typename... Waited, typename = std::enable_if_t<(... && is_waitable_v<Waited>)>> YACLIB_INLINE auto Await(Waited&... waited) noexcept { return AwaitInline(waited...); } template <typename Iterator, typename Value = typename std::iterator_traits<Iterator>::value_type, typename = std::enable_if_t<is_waitable_v<Value>>> YACLIB_INLINE auto Await(Iterator begin, std::size_t count) noexcept { return AwaitInline(begin, count); } template <typename Iterator, typename = std::enable_if_t<is_waitable_v<typename std::iterator_traits<Iterator>::value_type>>> YACLIB_INLINE auto Await(Iterator begin, Iterator end) noexcept { return AwaitInline(begin, end); } template <typename V, typename E> YACLIB_INLINE auto operator co_await(FutureBase<V, E>&& future) noexcept { YACLIB_ASSERT(future.Valid()); return detail::AwaitSingleAwaiter<false, V, E>{std::move(future.GetCore())}; } template <typename V, typename E> YACLIB_INLINE auto operator co_await(const SharedFutureBase<V, E>& future) noexcept { YACLIB_ASSERT(future.Valid()); return detail::AwaitSingleAwaiter<true, V, E>{future.GetCore()}; } template <typename V, typename E> YACLIB_INLINE auto operator co_await(Task<V, E>&& task) noexcept { YACLIB_ASSERT(task.Valid()); return detail::TransferSingleAwaiter{std::move(task.GetCore())}; } }"
+
+def CoSrc_await_inline_hpp : String :=
+  "#pragma once #include <yaclib/async/future.hpp> #include <yaclib/coro/coro.hpp> #include <yaclib/coro/detail/await_awaiter.hpp> #include <yaclib/util/type_traits.hpp> namespace yaclib { template <typename Waited, typename = std::enable_if_t<is_waitable_v<Waited>>> YACLIB_INLINE auto AwaitInline(Waited& waited) noexcept { YACLIB_ASSERT(waited.Valid()); return detail::AwaitAwaiter<typename Waited::Handle, false>{waited.GetHandle()}; } template <typename... Waited, typename = std::enable_if_t<(... && is_waitable_v<Waited>)>> YACLIB_INLINE auto AwaitInline(Waited&... waited) noexcept { using namespace detail; static constexpr auto kSharedCount = kCount<SharedHandle, typename Waited::Handle...>; using Awaiter = std::conditional_t<kSharedCount == 0, MultiAwaitAwaiter<AwaitEvent<false>>, MultiAwaitAwaiter<StaticSharedEvent<AwaitEvent<false>, kSharedCount>>>; YACLIB_ASSERT(... && waited.Valid()); return Awaiter{waited.GetHandle()...}; } template <typename Iterator, typename Value = typename std::iterator_traits<Iterator>::value_type, typename = std::enable_if_t<is_waitable_v<Value>>> YACLIB_INLINE auto AwaitInline(Iterator begin, std::size_t count) noexcept { using namespace detail; static constexpr auto kShared = std::is_same_v<typename Value::Handle, SharedHandle>; using Awaiter = std::conditional_t<kShared, MultiAwaitAwaiter<DynamicSharedEvent<AwaitEvent<false>>>, MultiAwaitAwaiter<AwaitEvent<false>>>; return Awaiter{begin, count}; } template <typename Iterator, typename = std::enable_if_t<is_waitable_v<typename std::iterator_traits<Iterator>::value_type>>> YACLIB_INLINE auto AwaitInline(Iterator begin, Iterator end) noexcept { return AwaitInline(begin, static_cast<std::size_t>(end - begin)); } }"
+
+def CoSrc_await_on_hpp : String :=
+  "#pragma once #include <yaclib/async/future.hpp> #include <yaclib/coro/coro.hpp> #include <yaclib/coro/detail/await_on_awaiter.hpp> #include <yaclib/util/type_traits.hpp> namespace yaclib { template <typename Waited, typename = std::enable_if_t<is_waitable_v<Waited>>> YACLIB_INLINE auto AwaitOn(IExecutor& e, Waited& waited) noexcept { YACLIB_ASSERT(waited.Valid()); return detail::AwaitOnAwaiter{e, waited.GetHandle()}; } template <typename... Waited, typename = std::enable_if_t<(... && is_waitable_v<Waited>)>> YACLIB_INLINE auto AwaitOn(IExecutor& e, Waited&... waited) noexcept { using namespace detail; static constexpr auto kSharedCount = kCount<SharedHandle, typename Waited::Handle...>; using CoreEvent = AwaitOnEvent<false>; using Event = std::conditional_t<kSharedCount == 0, CoreEvent, StaticSharedEvent<CoreEvent, kSharedCount>>; YACLIB_ASSERT(... && waited.Valid()); return MultiAwaitOnAwaiter<Event>{e, waited.GetHandle()...}; } template <typename Iterator, typename Value = typename std::iterator_traits<Iterator>::value_type, typename = std::enable_if_t<is_waitable_v<Value>>> YACLIB_INLINE auto AwaitOn(IExecutor& e, Iterator begin, std::size_t count) noexcept { using namespace detail; static constexpr auto kShared = std::is_same_v<typename Value::Handle, SharedHandle>; using CoreEvent = AwaitOnEvent<false>; using Event = std::conditional_t<kShared, DynamicSharedEvent<CoreEvent>, CoreEvent>; return MultiAwaitOnAwaiter<Event>{e, begin, count}; } template <typename Iterator, typename = std::enable_if_t<is_waitable_v<typename std::iterator_traits<Iterator>::value_type>>> YACLIB_INLINE auto AwaitOn(IExecutor& e, Iterator begin, Iterator end) noexcept { return AwaitOn(e, begin, static_cast<std::size_t>(end - begin)); } }"
+
+def CoSrc_await_sticky_hpp : String :=
+  "#pragma once #include <yaclib/async/future.hpp> #include <yaclib/coro/coro.hpp> #include <yaclib/coro/detail/await_awaiter.hpp> #include <yaclib/util/type_traits.hpp> namespace yaclib { template <typename Waited, typename = std::enable_if_t<is_waitable_v<Waited>>> YACLIB_INLINE auto AwaitSticky(Waited& waited) noexcept { YACLIB_ASSERT(waited.Valid()); return detail::AwaitAwaiter<typename Waited::Handle, true>{waited.GetHandle()}; } template <typename... Waited, typename = std::enable_if_t<(... && is_waitable_v<Waited>)>> YACLIB_INLINE auto AwaitSticky(Waited&... waited) noexcept { using namespace detail; static constexpr auto kSharedCount = kCount<SharedHandle, typename Waited::Handle...>; using Awaiter = std::conditional_t<kSharedCount == 0, MultiAwaitAwaiter<AwaitEvent<true>>, MultiAwaitAwaiter<StaticSharedEvent<AwaitEvent<true>, kSharedCount>>>; YACLIB_ASSERT(... && waited.Valid()); return Awaiter{waited.GetHandle()...}; } template <typename Iterator, typename Value = typename std::iterator_traits<Iterator>::value_type, typename = std::enable_if_t<is_waitable_v<Value>>> YACLIB_INLINE auto AwaitSticky(Iterator begin, std::size_t count) noexcept { using namespace detail; static constexpr auto kShared = std::is_same_v<typename Value::Handle, SharedHandle>; using Awaiter = std::conditional_t<kShared, MultiAwaitAwaiter<DynamicSharedEvent<AwaitEvent<true>>>, MultiAwaitAwaiter<AwaitEvent<true>>>; return Awaiter{begin, count}; } template <typename Iterator, typename = std::enable_if_t<is_waitable_v<typename std::iterator_traits<Iterator>::value_type>>> YACLIB_INLINE auto AwaitSticky(Iterator begin, Iterator end) noexcept { return AwaitSticky(begin, static_cast<std::size_t>(end - begin)); } }"
+
+def CoSrc_await_awaiter_hpp : String :=
+  "#pragma once #include <yaclib/algo/detail/inline_core.hpp> #include <yaclib/algo/detail/shared_event.hpp> #include <yaclib/async/future.hpp> #include <yaclib/coro/coro.hpp> #include <yaclib/lazy/task.hpp> #include <yaclib/util/detail/atomic_counter.hpp> #include <yaclib/util/type_traits.hpp> namespace yaclib::detail { struct [[nodiscard]] TransferAwaiter final { explicit TransferAwaiter(BaseCore& caller) noexcept : _caller{caller} { YACLIB_ASSERT(caller.Empty()); } constexpr bool await_ready() const noexcept { return false; } template <typename Promise> YACLIB_INLINE auto await_suspend(yaclib_std::coroutine_handle<Promise> handle) noexcept { _caller.StoreCallback(handle.promise()); auto* next = MoveToCaller(&_caller.core); #if YACLIB_SYMMETRIC_TRANSFER != 0 return next->Next(handle.promise()); #else return Loop(&handle.promise(), next); #endif } constexpr void await_resume() const noexcept { } private: UniqueHandle _caller; }; template <typename V, typename E> struct [[nodiscard]] TransferSingleAwaiter final { explicit TransferSingleAwaiter(UniqueCorePtr<V, E>&& result) noexcept : _result{std::move(result)} { YACLIB_ASSERT(_result != nullptr); YACLIB_ASSERT(_result->Empty()); } constexpr bool await_ready() const noexcept { return false; } template <typename Promise> YACLIB_INLINE auto await_suspend(yaclib_std::coroutine_handle<Promise> handle) noexcept { _result->StoreCallback(handle.promise()); auto* next = MoveToCaller(_result.Get()); #if YACLIB_SYMMETRIC_TRANSFER != 0 return next->Next(handle.promise()); #else return Loop(&handle.promise(), next); #endif } auto await_resume() { return std::move(_result->Get()).Ok(); } private: UniqueCorePtr<V, E> _result; }; template <typename Handle> struct AwaitAwaiterBase { explicit AwaitAwaiterBase(Handle caller) noexcept : _core{&caller.core} { } YACLIB_INLINE bool await_ready() const noexcept { return _core->Ready(); } constexpr void await_resume() const noexcept { } protected: BaseCore* _core; }; template <typename Handle, bool Sticky> struct [[nodiscard]] AwaitAwaiter; template <typename Handle> struct [[nodiscard]] AwaitAwaiter<Handle, false> final : public AwaitAwaiterBase<Handle> { using AwaitAwaiterBase<Handle>::AwaitAwaiterBase; template <typename Promise> YACLIB_INLINE bool await_suspend(yaclib_std::coroutine_handle<Promise> handle) noexcept { return Handle{*this->_core}.SetCallback(handle.promise()); } }; template <typename Handle> struct [[nodiscard]] AwaitAwaiter<Handle, true> final : public AwaitAwaiterBase<Handle>, public InlineCore { using AwaitAwaiterBase<Handle>::AwaitAwaiterBase; template <typename Promise> YACLIB_INLINE bool await_suspend(yaclib_std::coroutine_handle<Promise> handle) noexcept { auto caller_handle = Handle{*this->_core}; this->_core = &handle.promise(); return caller_handle.SetCallback(*this); } void Call() noexcept final { this->_core->_executor->Submit(*this->_core); } [[nodiscard]] InlineCore* Here(InlineCore& caller) noexcept final { Call(); return nullptr; } #if YACLIB_SYMMETRIC_TRANSFER != 0 [[nodiscard]] yaclib_std::coroutine_handle<> Next(InlineCore& caller) noexcept final { Call(); return Noop<true>(); } #endif }; template <bool Sticky> class AwaitEvent : public InlineCore, public AtomicCounter<NopeBase, NopeDeleter> { public: using AtomicCounter<NopeBase, NopeDeleter>::AtomicCounter; static constexpr auto kShared = false; AwaitEvent& GetCall() noexcept { return *this; } private: template <bool SymmetricTransfer> [[nodiscard]] YACLIB_INLINE auto Impl(InlineCore& caller) noexcept { if (this->SubEqual(1)) { if constexpr (Sticky) { auto* curr = static_cast<BaseCore*>(next); curr->_executor->Submit(*curr); } else { auto* curr = static_cast<InlineCore*>(next); if constexpr (SymmetricTransfer) { return Step<true>(caller, *curr); } else { curr = curr->Here(caller); YACLIB_ASSERT(curr == nullptr); } } } return Noop<SymmetricTransfer>(); } public: [[nodiscard]] InlineCore* Here(InlineCore& caller) noexcept final { return Impl<false>(caller); } #if YACLIB_SYMMETRIC_TRANSFER != 0 [[nodiscard]] yaclib_std::coroutine_handle<> Next(InlineCore& caller) noexcept final { return Impl<true>(caller); } #endif }; template <typename Event> class MultiAwaitAwaiter final : public Event { public: static constexpr auto kShared = Event::kShared; template <typename... Handles> explicit MultiAwaitAwaiter(Handles... handles) noexcept : Event{sizeof...(handles) + 1} { SetCallbacksStatic(*this, handles...); } template <typename It> explicit MultiAwaitAwaiter(It it, std::size_t count) noexcept : Event{count + 1} { SetCallbacksDynamic(*this, it, count); } YACLIB_INLINE bool await_ready() const noexcept { return this->Get(std::memory_order_acquire) == 1; } template <typename Promise> YACLIB_INLINE bool await_suspend(yaclib_std::coroutine_handle<Promise> handle) noexcept { this->next = &handle.promise(); return !this->SubEqual(1); } constexpr void await_resume() const noexcept { } }; template <bool Shared, typename V, typename E> class AwaitSingleAwaiter; template <typename V, typename E> class [[nodiscard]] AwaitSingleAwaiter<false, V, E> final { public: explicit AwaitSingleAwaiter(UniqueCorePtr<V, E>&& result) noexcept : _result{std::move(result)} { YACLIB_ASSERT(_result != nullptr); } YACLIB_INLINE bool await_ready() const noexcept { return _result->Ready(); } template <typename Promise> YACLIB_INLINE bool await_suspend(yaclib_std::coroutine_handle<Promise> handle) noexcept { return _result->SetCallback(handle.promise()); } auto await_resume() { return std::move(_result->Get()).Ok(); } private: UniqueCorePtr<V, E> _result; }; template <typename V, typename E> class [[nodiscard]] AwaitSingleAwaiter<true, V, E> final { public: explicit AwaitSingleAwaiter(SharedCorePtr<V, E> result) noexcept : _result{std::move(result)} { YACLIB_ASSERT(_result != nullptr); } YACLIB_INLINE bool await_ready() const noexcept { return _result->Ready(); } template <typename Promise> YACLIB_INLINE bool await_suspend(yaclib_std::coroutine_handle<Promise> handle) const noexcept { return _result->SetCallback(handle.promise()); } auto await_resume() const { return std::as_const(_result->Get()).Ok(); } private: SharedCorePtr<V, E> _result; }; }"
+
+def CoSrc_await_on_awaiter_hpp : String :=
+  "#pragma once #include <yaclib/algo/detail/shared_event.hpp> #include <yaclib/async/future.hpp> #include <yaclib/coro/coro.hpp> #include <yaclib/exe/executor.hpp> #include <yaclib/lazy/task.hpp> #include <yaclib/util/detail/atomic_counter.hpp> #include <yaclib/util/detail/unique_counter.hpp> #include <yaclib/util/type_traits.hpp> namespace yaclib::detail { template <bool Single> using AwaitOnCounterT = std::conditional_t<Single, OneCounter<NopeBase, NopeDeleter>, AtomicCounter<NopeBase, NopeDeleter>>; template <bool Single> class AwaitOnEvent : public InlineCore, public AwaitOnCounterT<Single> { public: static constexpr auto kShared = false; AwaitOnEvent& GetCall() noexcept { return *this; } explicit AwaitOnEvent(std::size_t n) noexcept : AwaitOnCounterT<Single>{n} { } [[nodiscard]] InlineCore* Here(InlineCore& caller) noexcept final { return Impl<false>(caller); } #if YACLIB_SYMMETRIC_TRANSFER != 0 [[nodiscard]] yaclib_std::coroutine_handle<> Next(InlineCore& caller) noexcept final { return Impl<true>(caller); } #endif protected: BaseCore* job{nullptr}; private: template <bool SymmetricTransfer> [[nodiscard]] YACLIB_INLINE auto Impl(InlineCore& ) noexcept { if constexpr (Single) { job->_executor->Submit(*job); } else { if (this->SubEqual(1)) { YACLIB_ASSERT(job != nullptr); job->_executor->Submit(*job); } } return Noop<SymmetricTransfer>(); } }; template <typename Handle> struct [[nodiscard]] AwaitOnAwaiter final : AwaitOnEvent<false> { explicit AwaitOnAwaiter(IExecutor& e, Handle caller) noexcept : AwaitOnEvent<false>{1}, _executor{e} { job = &caller.core; } constexpr bool await_ready() const noexcept { return false; } template <typename Promise> YACLIB_INLINE void await_suspend(yaclib_std::coroutine_handle<Promise> handle) noexcept { auto& core = handle.promise(); core._executor = &_executor; Handle caller_handle{*job}; job = &core; if (!caller_handle.SetCallback(*this)) { _executor.Submit(core); } } constexpr void await_resume() const noexcept { } private: IExecutor& _executor; }; template <typename Event> class [[nodiscard]] MultiAwaitOnAwaiter final : public Event { public: static constexpr auto kShared = Event::kShared; template <typename... Handles> explicit MultiAwaitOnAwaiter(IExecutor& e, Handles... handles) noexcept : Event{sizeof...(handles) + 1}, _executor{e} { SetCallbacksStatic(*this, handles...); } template <typename It> explicit MultiAwaitOnAwaiter(IExecutor& e, It it, std::size_t count) noexcept : Event{count + 1}, _executor{e} { SetCallbacksDynamic(*this, it, count); } constexpr bool await_ready() const noexcept { return false; } template <typename Promise> YACLIB_INLINE void await_suspend(yaclib_std::coroutine_handle<Promise> handle) noexcept { auto& core = handle.promise(); core._executor = &_executor; this->job = &core; if (this->SubEqual(1)) { _executor.Submit(core); } } constexpr void await_resume() const noexcept { } private: IExecutor& _executor; }; }"
+
+def CoSrc_shared_event_hpp : String :=
+  "#pragma once #include <yaclib/algo/detail/base_core.hpp> #include <yaclib/algo/detail/inline_core.hpp> #if YACLIB_CORO != 0 # include <yaclib/coro/coro.hpp> #endif #include <array> #include <vector> namespace yaclib::detail { template <typename Event> struct EventHelperCallback final : InlineCore { EventHelperCallback() = default; EventHelperCallback(Event* event) : event{event} { } [[nodiscard]] InlineCore* Here(InlineCore& caller) noexcept { return event->GetCall().Here(caller); } #if YACLIB_SYMMETRIC_TRANSFER != 0 [[nodiscard]] yaclib_std::coroutine_handle<> Next(InlineCore& caller) noexcept final { return event->GetCall().Next(caller); } #endif Event* event; }; template <typename Event, std::size_t SharedCount> struct StaticSharedEvent : public Event { static constexpr bool kShared = true; explicit StaticSharedEvent(std::size_t total_count) : Event{total_count} { callbacks.fill(this); } std::array<EventHelperCallback<Event>, SharedCount> callbacks; }; template <typename Event> struct DynamicSharedEvent : public Event { static constexpr bool kShared = true; explicit DynamicSharedEvent(std::size_t total_count) : Event{total_count}, callbacks{total_count - 1, this} { } std::vector<EventHelperCallback<Event>> callbacks; }; template <typename Event, typename... Handles> void SetCallbacksStatic(Event& event, Handles... handles) { static_assert(sizeof...(handles) >= 2, \"Number of futures must be at least two\"); const auto wait_count = [&] { if constexpr (!Event::kShared) { auto setter = [&](auto handle) { return handle.SetCallback(event); }; return (... + static_cast<std::size_t>(setter(handles))); } else { auto setter = [&, callback_count = std::size_t{}](auto handle) mutable { if constexpr (std::is_same_v<decltype(handle), UniqueHandle>) { return handle.SetCallback(event); } else { return handle.SetCallback(event.callbacks[callback_count++]); } }; return (... + static_cast<std::size_t>(setter(handles))); } }(); event.count.fetch_sub(sizeof...(handles) - wait_count, std::memory_order_relaxed); } template <typename Event, typename It> void SetCallbacksDynamic(Event& event, It it, std::size_t count) { std::size_t wait_count = 0; for (std::size_t i = 0; i != count; ++i) { YACLIB_ASSERT(it->Valid()); if constexpr (std::is_same_v<decltype(it->GetHandle()), UniqueHandle>) { wait_count += static_cast<std::size_t>(it->GetHandle().SetCallback(event)); } else { wait_count += static_cast<std::size_t>(it->GetHandle().SetCallback(event.callbacks[i])); } ++it; } event.count.fetch_sub(count - wait_count, std::memory_order_relaxed); } }"
+
+def CoSrc_wait_event_hpp : String :=
+  "#pragma once #include <yaclib/algo/detail/inline_core.hpp> #include <yaclib/algo/detail/shared_event.hpp> #include <yaclib/util/cast.hpp> #include <yaclib/util/detail/set_deleter.hpp> namespace yaclib::detail { template <typename Derived> struct CallCallback : InlineCore { CallCallback& GetCall() noexcept { return *this; } private: template <bool SymmetricTransfer> [[nodiscard]] YACLIB_INLINE auto Impl() noexcept { DownCast<Derived>(*this).Sub(1); return Noop<SymmetricTransfer>(); } public: [[nodiscard]] InlineCore* Here(InlineCore& ) noexcept final { return Impl<false>(); } #if YACLIB_SYMMETRIC_TRANSFER != 0 [[nodiscard]] yaclib_std::coroutine_handle<> Next(InlineCore& ) noexcept final { return Impl<true>(); } #endif }; template <typename Derived> struct DropCallback : InlineCore { DropCallback& GetDrop() noexcept { return *this; } private: template <bool SymmetricTransfer> [[nodiscard]] YACLIB_INLINE auto Impl(InlineCore& caller) noexcept { caller.DecRef(); DownCast<Derived>(*this).Sub(1); return Noop<SymmetricTransfer>(); } public: [[nodiscard]] InlineCore* Here(InlineCore& caller) noexcept final { return Impl<false>(caller); } #if YACLIB_SYMMETRIC_TRANSFER != 0 [[nodiscard]] yaclib_std::coroutine_handle<> Next(InlineCore& caller) noexcept final { return Impl<true>(caller); } #endif }; template <typename Event, template <typename...> typename Counter, template <typename...> typename... Callbacks> struct MultiEvent : Counter<Event, SetDeleter>, Callbacks<MultiEvent<Event, Counter, Callbacks...>>... { static constexpr bool kShared = false; using Counter<Event, SetDeleter>::Counter; }; }"
+
+def CoSrc_wait_impl_hpp : String :=
+  "#pragma once #include <yaclib/algo/detail/base_core.hpp> #include <yaclib/algo/detail/wait_event.hpp> #include <yaclib/util/detail/atomic_counter.hpp> #include <yaclib/util/detail/default_event.hpp> #include <yaclib/util/detail/set_deleter.hpp> #include <yaclib/util/detail/unique_counter.hpp> #include <yaclib/util/type_traits.hpp> #include <cstddef> #include <iterator> #include <type_traits> namespace yaclib::detail { struct NoTimeoutTag final {}; template <typename Event, typename Timeout, typename Range> bool WaitRange(Event& event, const Timeout& timeout, Range&& range, std::size_t count) noexcept { const auto wait_count = [&] { if constexpr (Event::kShared) { return range([&, callback_count = std::size_t{}](auto handle) mutable noexcept { if constexpr (std::is_same_v<UniqueHandle, decltype(handle)>) { return handle.SetCallback(event.GetCall()); } else { return handle.SetCallback(event.callbacks[callback_count++]); } }); } else { return range([&](auto handle) noexcept { return handle.SetCallback(event.GetCall()); }); } }(); if (wait_count == 0 || event.SubEqual(count - wait_count + 1)) { return true; } auto token = event.Make(); std::size_t reset_count = 0; if constexpr (!std::is_same_v<Timeout, NoTimeoutTag>) { if (event.Wait(token, timeout)) { return true; } reset_count = range([](UniqueHandle handle) noexcept { return handle.Reset(); }); if (reset_count != 0 && (reset_count == wait_count || event.SubEqual(reset_count))) { return false; } } event.Wait(token); return reset_count == 0; } template <typename Event, typename Timeout, typename... Handles> bool WaitCore(const Timeout& timeout, Handles... handles) noexcept { static_assert(sizeof...(handles) >= 1, \"Number of futures must be at least one\"); static constexpr std::size_t kSharedCount = kCount<SharedHandle, Handles...>; static_assert(kSharedCount == 0 || std::is_same_v<Timeout, NoTimeoutTag>); auto range = [&](auto&& func) noexcept { return (... + static_cast<std::size_t>(func(handles))); }; using CoreEvent = std::conditional_t<sizeof...(handles) == 1, MultiEvent<Event, OneCounter, CallCallback>, MultiEvent<Event, AtomicCounter, CallCallback>>; using FinalEvent = std::conditional_t<kSharedCount <= 1, CoreEvent, StaticSharedEvent<CoreEvent, kSharedCount>>; FinalEvent event{sizeof...(handles) + 1}; return WaitRange(event, timeout, range, sizeof...(handles)); } template <typename Event, typename Timeout, typename Iterator> bool WaitIterator(const Timeout& timeout, Iterator it, std::size_t count) noexcept { static_assert(is_waitable_v<typename std::iterator_traits<Iterator>::value_type>, \"Wait function Iterator must be point to some Waitable (Future or SharedFuture)\"); static constexpr bool kShared = std::is_same_v<decltype(it->GetHandle()), SharedHandle>; if (count == 0) { return true; } if (count == 1) { YACLIB_ASSERT(it->Valid()); return WaitCore<Event>(timeout, it->GetHandle()); } auto range = [&](auto&& func) noexcept { std::size_t wait_count = 0; std::conditional_t<std::is_same_v<Timeout, NoTimeoutTag>, Iterator&, Iterator> range_it = it; for (std::size_t i = 0; i != count; ++i) { YACLIB_ASSERT(range_it->Valid()); wait_count += static_cast<std::size_t>(func(range_it->GetHandle())); ++range_it; } return wait_count; }; using CoreEvent = MultiEvent<Event, AtomicCounter, CallCallback>; using FinalEvent = std::conditional_t<kShared, DynamicSharedEvent<CoreEvent>, CoreEvent>; FinalEvent event{count + 1}; return WaitRange(event, timeout, range, count); } extern template bool WaitCore<DefaultEvent, NoTimeoutTag, UniqueHandle>(const NoTimeoutTag&, UniqueHandle) noexcept; extern template bool WaitCore<DefaultEvent, NoTimeoutTag, SharedHandle>(const NoTimeoutTag&, SharedHandle) noexcept; }"
+
+def Submit_free : String :=
+  "Submit(executor, f) { decl StaticAssertDecl; var job = MakeUniqueJob(forward(f)); executor.Submit((*job)) }"
+
+def MakeUniqueJob : String :=
+  "MakeUniqueJob(f) { return new(init(forward(f))) }"
+
+def UniqueJob_Call : String :=
+  "Call() { Call(); Drop() }"
+
+def UniqueJob_Drop : String :=
+  "Drop() { delete(this) }"
+
+def SafeCall_Call : String :=
+  "Call() { ifc (is_nothrow_invocable_v) { forward(_func)() } else { try { forward(_func)() } catch {  } } }"
+
 def Task_ThenOn : String :=
   "Then(e, f) { var CoreT = operator|(operator|(ToUnique, Call), Lazy); return SetCallback(_core, (&e), forward(f)) }"
 
@@ -1244,47 +1286,5 @@ def SetCallbacksDynamic : String :=
 
 def EventHelperCallback_Here : String :=
   "Here(caller) { return event.GetCall().Here(caller) }"
-
-def Submit_free : String :=
-  "Submit(executor, f) { decl StaticAssertDecl; var job = MakeUniqueJob(forward(f)); executor.Submit((*job)) }"
-
-def MakeUniqueJob : String :=
-  "MakeUniqueJob(f) { return new(init(forward(f))) }"
-
-def UniqueJob_Call : String :=
-  "Call() { Call(); Drop() }"
-
-def UniqueJob_Drop : String :=
-  "Drop() { delete(this) }"
-
-def SafeCall_Call : String :=
-  "Call() { ifc (is_nothrow_invocable_v) { forward(_func)() } else { try { forward(_func)() } catch {  } } }"
-
-def CoSrc_await_hpp : String :=
-  "#pragma once #include <yaclib/async/future.hpp> #include <yaclib/coro/await_inline.hpp> #include <yaclib/coro/coro.hpp> #include <yaclib/coro/detail/await_awaiter.hpp> #include <yaclib/util/type_traits.hpp> namespace yaclib { template <typename V, typename E> YACLIB_INLINE auto Await(Task<V, E>& task) noexcept { YACLIB_ASSERT(task.Valid()); return detail::TransferAwaiter{UpCast<detail::BaseCore>(*task.GetCore())}; } template <typename Waited, typename = std::enable_if_t<is_waitable_v<Waited>>> YACLIB_INLINE auto Await(Waited& waited) noexcept { return AwaitInline(waited); } template <typename... Waited, typename = std::enable_if_t<(... && is_waitable_v<Waited>)>> YACLIB_INLINE auto Await(Waited&... waited) noexcept { return AwaitInline(waited...); } template <typename Iterator, typename Value = typename std::iterator_traits<Iterator>::value_type, typename = std::enable_if_t<is_waitable_v<Value>>> YACLIB_INLINE auto Await(Iterator begin, std::size_t count) noexcept { return AwaitInline(begin, count); } template <typename Iterator, typename = std::enable_if_t<is_waitable_v<typename std::iterator_traits<Iterator>::value_type>>> YACLIB_INLINE auto Await(Iterator begin, Iterator end) noexcept { return AwaitInline(begin, end); } template <typename V, typename E> YACLIB_INLINE auto operator co_await(FutureBase<V, E>&& future) noexcept { YACLIB_ASSERT(future.Valid()); return detail::AwaitSingleAwaiter<false, V, E>{std::move(future.GetCore())}; } template <typename V, typename E> YACLIB_INLINE auto operator co_await(const SharedFutureBase<V, E>& future) noexcept { YACLIB_ASSERT(future.Valid()); return detail::AwaitSingleAwaiter<true, V, E>{future.GetCore()}; } template <typename V, typename E> YACLIB_INLINE auto operator co_await(Task<V, E>&& task) noexcept { YACLIB_ASSERT(task.Valid()); return detail::TransferSingleAwaiter{std::move(task.GetCore())}; } }"
-
-def CoSrc_await_inline_hpp : String :=
-  "#pragma once #include <yaclib/async/future.hpp> #include <yaclib/coro/coro.hpp> #include <yaclib/coro/detail/await_awaiter.hpp> #include <yaclib/util/type_traits.hpp> namespace yaclib { template <typename Waited, typename = std::enable_if_t<is_waitable_v<Waited>>> YACLIB_INLINE auto AwaitInline(Waited& waited) noexcept { YACLIB_ASSERT(waited.Valid()); return detail::AwaitAwaiter<typename Waited::Handle, false>{waited.GetHandle()}; } template <typename... Waited, typename = std::enable_if_t<(... && is_waitable_v<Waited>)>> YACLIB_INLINE auto AwaitInline(Waited&... waited) noexcept { using namespace detail; static constexpr auto kSharedCount = kCount<SharedHandle, typename Waited::Handle...>; using Awaiter = std::conditional_t<kSharedCount == 0, MultiAwaitAwaiter<AwaitEvent<false>>, MultiAwaitAwaiter<StaticSharedEvent<AwaitEvent<false>, kSharedCount>>>; YACLIB_ASSERT(... && waited.Valid()); return Awaiter{waited.GetHandle()...}; } template <typename Iterator, typename Value = typename std::iterator_traits<Iterator>::value_type, typename = std::enable_if_t<is_waitable_v<Value>>> YACLIB_INLINE auto AwaitInline(Iterator begin, std::size_t count) noexcept { using namespace detail; static constexpr auto kShared = std::is_same_v<typename Value::Handle, SharedHandle>; using Awaiter = std::conditional_t<kShared, MultiAwaitAwaiter<DynamicSharedEvent<AwaitEvent<false>>>, MultiAwaitAwaiter<AwaitEvent<false>>>; return Awaiter{begin, count}; } template <typename Iterator, typename = std::enable_if_t<is_waitable_v<typename std::iterator_traits<Iterator>::value_type>>> YACLIB_INLINE auto AwaitInline(Iterator begin, Iterator end) noexcept { return AwaitInline(begin, static_cast<std::size_t>(end - begin)); } }"
-
-def CoSrc_await_on_hpp : String :=
-  "#pragma once #include <yaclib/async/future.hpp> #include <yaclib/coro/coro.hpp> #include <yaclib/coro/detail/await_on_awaiter.hpp> #include <yaclib/util/type_traits.hpp> namespace yaclib { template <typename Waited, typename = std::enable_if_t<is_waitable_v<Waited>>> YACLIB_INLINE auto AwaitOn(IExecutor& e, Waited& waited) noexcept { YACLIB_ASSERT(waited.Valid()); return detail::AwaitOnAwaiter{e, waited.GetHandle()}; } template <typename... Waited, typename = std::enable_if_t<(... && is_waitable_v<Waited>)>> YACLIB_INLINE auto AwaitOn(IExecutor& e, Waited&... waited) noexcept { using namespace detail; static constexpr auto kSharedCount = kCount<SharedHandle, typename Waited::Handle...>; using CoreEvent = AwaitOnEvent<false>; using Event = std::conditional_t<kSharedCount == 0, CoreEvent, StaticSharedEvent<CoreEvent, kSharedCount>>; YACLIB_ASSERT(... && waited.Valid()); return MultiAwaitOnAwaiter<Event>{e, waited.GetHandle()...}; } template <typename Iterator, typename Value = typename std::iterator_traits<Iterator>::value_type, typename = std::enable_if_t<is_waitable_v<Value>>> YACLIB_INLINE auto AwaitOn(IExecutor& e, Iterator begin, std::size_t count) noexcept { using namespace detail; static constexpr auto kShared = std::is_same_v<typename Value::Handle, SharedHandle>; using CoreEvent = AwaitOnEvent<false>; using Event = std::conditional_t<kShared, DynamicSharedEvent<CoreEvent>, CoreEvent>; return MultiAwaitOnAwaiter<Event>{e, begin, count}; } template <typename Iterator, typename = std::enable_if_t<is_waitable_v<typename std::iterator_traits<Iterator>::value_type>>> YACLIB_INLINE auto AwaitOn(IExecutor& e, Iterator begin, Iterator end) noexcept { return AwaitOn(e, begin, static_cast<std::size_t>(end - begin)); } }"
-
-def CoSrc_await_sticky_hpp : String :=
-  "#pragma once #include <yaclib/async/future.hpp> #include <yaclib/coro/coro.hpp> #include <yaclib/coro/detail/await_awaiter.hpp> #include <yaclib/util/type_traits.hpp> namespace yaclib { template <typename Waited, typename = std::enable_if_t<is_waitable_v<Waited>>> YACLIB_INLINE auto AwaitSticky(Waited& waited) noexcept { YACLIB_ASSERT(waited.Valid()); return detail::AwaitAwaiter<typename Waited::Handle, true>{waited.GetHandle()}; } template <typename... Waited, typename = std::enable_if_t<(... && is_waitable_v<Waited>)>> YACLIB_INLINE auto AwaitSticky(Waited&... waited) noexcept { using namespace detail; static constexpr auto kSharedCount = kCount<SharedHandle, typename Waited::Handle...>; using Awaiter = std::conditional_t<kSharedCount == 0, MultiAwaitAwaiter<AwaitEvent<true>>, MultiAwaitAwaiter<StaticSharedEvent<AwaitEvent<true>, kSharedCount>>>; YACLIB_ASSERT(... && waited.Valid()); return Awaiter{waited.GetHandle()...}; } template <typename Iterator, typename Value = typename std::iterator_traits<Iterator>::value_type, typename = std::enable_if_t<is_waitable_v<Value>>> YACLIB_INLINE auto AwaitSticky(Iterator begin, std::size_t count) noexcept { using namespace detail; static constexpr auto kShared = std::is_same_v<typename Value::Handle, SharedHandle>; using Awaiter = std::conditional_t<kShared, MultiAwaitAwaiter<DynamicSharedEvent<AwaitEvent<true>>>, MultiAwaitAwaiter<AwaitEvent<true>>>; return Awaiter{begin, count}; } template <typename Iterator, typename = std::enable_if_t<is_waitable_v<typename std::iterator_traits<Iterator>::value_type>>> YACLIB_INLINE auto AwaitSticky(Iterator begin, Iterator end) noexcept { return AwaitSticky(begin, static_cast<std::size_t>(end - begin)); } }"
-
-def CoSrc_await_awaiter_hpp : String :=
-  "#pragma once #include <yaclib/algo/detail/inline_core.hpp> #include <yaclib/algo/detail/shared_event.hpp> #include <yaclib/async/future.hpp> #include <yaclib/coro/coro.hpp> #include <yaclib/lazy/task.hpp> #include <yaclib/util/detail/atomic_counter.hpp> #include <yaclib/util/type_traits.hpp> namespace yaclib::detail { struct [[nodiscard]] TransferAwaiter final { explicit TransferAwaiter(BaseCore& caller) noexcept : _caller{caller} { YACLIB_ASSERT(caller.Empty()); } constexpr bool await_ready() const noexcept { return false; } template <typename Promise> YACLIB_INLINE auto await_suspend(yaclib_std::coroutine_handle<Promise> handle) noexcept { _caller.StoreCallback(handle.promise()); auto* next = MoveToCaller(&_caller.core); #if YACLIB_SYMMETRIC_TRANSFER != 0 return next->Next(handle.promise()); #else return Loop(&handle.promise(), next); #endif } constexpr void await_resume() const noexcept { } private: UniqueHandle _caller; }; template <typename V, typename E> struct [[nodiscard]] TransferSingleAwaiter final { explicit TransferSingleAwaiter(UniqueCorePtr<V, E>&& result) noexcept : _result{std::move(result)} { YACLIB_ASSERT(_result != nullptr); YACLIB_ASSERT(_result->Empty()); } constexpr bool await_ready() const noexcept { return false; } template <typename Promise> YACLIB_INLINE auto await_suspend(yaclib_std::coroutine_handle<Promise> handle) noexcept { _result->StoreCallback(handle.promise()); auto* next = MoveToCaller(_result.Get()); #if YACLIB_SYMMETRIC_TRANSFER != 0 return next->Next(handle.promise()); #else return Loop(&handle.promise(), next); #endif } auto await_resume() { return std::move(_result->Get()).Ok(); } private: UniqueCorePtr<V, E> _result; }; template <typename Handle> struct AwaitAwaiterBase { explicit AwaitAwaiterBase(Handle caller) noexcept : _core{&caller.core} { } YACLIB_INLINE bool await_ready() const noexcept { return _core->Ready(); } constexpr void await_resume() const noexcept { } protected: BaseCore* _core; }; template <typename Handle, bool Sticky> struct [[nodiscard]] AwaitAwaiter; template <typename Handle> struct [[nodiscard]] AwaitAwaiter<Handle, false> final : public AwaitAwaiterBase<Handle> { using AwaitAwaiterBase<Handle>::AwaitAwaiterBase; template <typename Promise> YACLIB_INLINE bool await_suspend(yaclib_std::coroutine_handle<Promise> handle) noexcept { return Handle{*this->_core}.SetCallback(handle.promise()); } }; template <typename Handle> struct [[nodiscard]] AwaitAwaiter<Handle, true> final : public AwaitAwaiterBase<Handle>, public InlineCore { using AwaitAwaiterBase<Handle>::AwaitAwaiterBase; template <typename Promise> YACLIB_INLINE bool await_suspend(yaclib_std::coroutine_handle<Promise> handle) noexcept { auto caller_handle = Handle{*this->_core}; this->_core = &handle.promise(); return caller_handle.SetCallback(*this); } void Call() noexcept final { this->_core->_executor->Submit(*this->_core); } [[nodiscard]] InlineCore* Here(InlineCore& caller) noexcept final { Call(); return nullptr; } #if YACLIB_SYMMETRIC_TRANSFER != 0 [[nodiscard]] yaclib_std::coroutine_handle<> Next(InlineCore& caller) noexcept final { Call(); return Noop<true>(); } #endif }; template <bool Sticky> class AwaitEvent : public InlineCore, public AtomicCounter<NopeBase, NopeDeleter> { public: using AtomicCounter<NopeBase, NopeDeleter>::AtomicCounter; static constexpr auto kShared = false; AwaitEvent& GetCall() noexcept { return *this; } private: template <bool SymmetricTransfer> [[nodiscard]] YACLIB_INLINE auto Impl(InlineCore& caller) noexcept { if (this->SubEqual(1)) { if constexpr (Sticky) { auto* curr = static_cast<BaseCore*>(next); curr->_executor->Submit(*curr); } else { auto* curr = static_cast<InlineCore*>(next); if constexpr (SymmetricTransfer) { return Step<true>(caller, *curr); } else { curr = curr->Here(caller); YACLIB_ASSERT(curr == nullptr); } } } return Noop<SymmetricTransfer>(); } public: [[nodiscard]] InlineCore* Here(InlineCore& caller) noexcept final { return Impl<false>(caller); } #if YACLIB_SYMMETRIC_TRANSFER != 0 [[nodiscard]] yaclib_std::coroutine_handle<> Next(InlineCore& caller) noexcept final { return Impl<true>(caller); } #endif }; template <typename Event> class MultiAwaitAwaiter final : public Event { public: static constexpr auto kShared = Event::kShared; template <typename... Handles> explicit MultiAwaitAwaiter(Handles... handles) noexcept : Event{sizeof...(handles) + 1} { SetCallbacksStatic(*this, handles...); } template <typename It> explicit MultiAwaitAwaiter(It it, std::size_t count) noexcept : Event{count + 1} { SetCallbacksDynamic(*this, it, count); } YACLIB_INLINE bool await_ready() const noexcept { return this->Get(std::memory_order_acquire) == 1; } template <typename Promise> YACLIB_INLINE bool await_suspend(yaclib_std::coroutine_handle<Promise> handle) noexcept { this->next = &handle.promise(); return !this->SubEqual(1); } constexpr void await_resume() const noexcept { } }; template <bool Shared, typename V, typename E> class AwaitSingleAwaiter; template <typename V, typename E> class [[nodiscard]] AwaitSingleAwaiter<false, V, E> final { public: explicit AwaitSingleAwaiter(UniqueCorePtr<V, E>&& result) noexcept : _result{std::move(result)} { YACLIB_ASSERT(_result != nullptr); } YACLIB_INLINE bool await_ready() const noexcept { return _result->Ready(); } template <typename Promise> YACLIB_INLINE bool await_suspend(yaclib_std::coroutine_handle<Promise> handle) noexcept { return _result->SetCallback(handle.promise()); } auto await_resume() { return std::move(_result->Get()).Ok(); } private: UniqueCorePtr<V, E> _result; }; template <typename V, typename E> class [[nodiscard]] AwaitSingleAwaiter<true, V, E> final { public: explicit AwaitSingleAwaiter(SharedCorePtr<V, E> result) noexcept : _result{std::move(result)} { YACLIB_ASSERT(_result != nullptr); } YACLIB_INLINE bool await_ready() const noexcept { return _result->Ready(); } template <typename Promise> YACLIB_INLINE bool await_suspend(yaclib_std::coroutine_handle<Promise> handle) const noexcept { return _result->SetCallback(handle.promise()); } auto await_resume() const { return std::as_const(_result->Get()).Ok(); } private: SharedCorePtr<V, E> _result; }; }"
-
-def CoSrc_await_on_awaiter_hpp : String :=
-  "#pragma once #include <yaclib/algo/detail/shared_event.hpp> #include <yaclib/async/future.hpp> #include <yaclib/coro/coro.hpp> #include <yaclib/exe/executor.hpp> #include <yaclib/lazy/task.hpp> #include <yaclib/util/detail/atomic_counter.hpp> #include <yaclib/util/detail/unique_counter.hpp> #include <yaclib/util/type_traits.hpp> namespace yaclib::detail { template <bool Single> using AwaitOnCounterT = std::conditional_t<Single, OneCounter<NopeBase, NopeDeleter>, AtomicCounter<NopeBase, NopeDeleter>>; template <bool Single> class AwaitOnEvent : public InlineCore, public AwaitOnCounterT<Single> { public: static constexpr auto kShared = false; AwaitOnEvent& GetCall() noexcept { return *this; } explicit AwaitOnEvent(std::size_t n) noexcept : AwaitOnCounterT<Single>{n} { } [[nodiscard]] InlineCore* Here(InlineCore& caller) noexcept final { return Impl<false>(caller); } #if YACLIB_SYMMETRIC_TRANSFER != 0 [[nodiscard]] yaclib_std::coroutine_handle<> Next(InlineCore& caller) noexcept final { return Impl<true>(caller); } #endif protected: BaseCore* job{nullptr}; private: template <bool SymmetricTransfer> [[nodiscard]] YACLIB_INLINE auto Impl(InlineCore& ) noexcept { if constexpr (Single) { job->_executor->Submit(*job); } else { if (this->SubEqual(1)) { YACLIB_ASSERT(job != nullptr); job->_executor->Submit(*job); } } return Noop<SymmetricTransfer>(); } }; template <typename Handle> struct [[nodiscard]] AwaitOnAwaiter final : AwaitOnEvent<false> { explicit AwaitOnAwaiter(IExecutor& e, Handle caller) noexcept : AwaitOnEvent<false>{1}, _executor{e} { job = &caller.core; } constexpr bool await_ready() const noexcept { return false; } template <typename Promise> YACLIB_INLINE void await_suspend(yaclib_std::coroutine_handle<Promise> handle) noexcept { auto& core = handle.promise(); core._executor = &_executor; Handle caller_handle{*job}; job = &core; if (!caller_handle.SetCallback(*this)) { _executor.Submit(core); } } constexpr void await_resume() const noexcept { } private: IExecutor& _executor; }; template <typename Event> class [[nodiscard]] MultiAwaitOnAwaiter final : public Event { public: static constexpr auto kShared = Event::kShared; template <typename... Handles> explicit MultiAwaitOnAwaiter(IExecutor& e, Handles... handles) noexcept : Event{sizeof...(handles) + 1}, _executor{e} { SetCallbacksStatic(*this, handles...); } template <typename It> explicit MultiAwaitOnAwaiter(IExecutor& e, It it, std::size_t count) noexcept : Event{count + 1}, _executor{e} { SetCallbacksDynamic(*this, it, count); } constexpr bool await_ready() const noexcept { return false; } template <typename Promise> YACLIB_INLINE void await_suspend(yaclib_std::coroutine_handle<Promise> handle) noexcept { auto& core = handle.promise(); core._executor = &_executor; this->job = &core; if (this->SubEqual(1)) { _executor.Submit(core); } } constexpr void await_resume() const noexcept { } private: IExecutor& _executor; }; }"
-
-def CoSrc_shared_event_hpp : String :=
-  "#pragma once #include <yaclib/algo/detail/base_core.hpp> #include <yaclib/algo/detail/inline_core.hpp> #if YACLIB_CORO != 0 # include <yaclib/coro/coro.hpp> #endif #include <array> #include <vector> namespace yaclib::detail { template <typename Event> struct EventHelperCallback final : InlineCore { EventHelperCallback() = default; EventHelperCallback(Event* event) : event{event} { } [[nodiscard]] InlineCore* Here(InlineCore& caller) noexcept { return event->GetCall().Here(caller); } #if YACLIB_SYMMETRIC_TRANSFER != 0 [[nodiscard]] yaclib_std::coroutine_handle<> Next(InlineCore& caller) noexcept final { return event->GetCall().Next(caller); } #endif Event* event; }; template <typename Event, std::size_t SharedCount> struct StaticSharedEvent : public Event { static constexpr bool kShared = true; explicit StaticSharedEvent(std::size_t total_count) : Event{total_count} { callbacks.fill(this); } std::array<EventHelperCallback<Event>, SharedCount> callbacks; }; template <typename Event> struct DynamicSharedEvent : public Event { static constexpr bool kShared = true; explicit DynamicSharedEvent(std::size_t total_count) : Event{total_count}, callbacks{total_count - 1, this} { } std::vector<EventHelperCallback<Event>> callbacks; }; template <typename Event, typename... Handles> void SetCallbacksStatic(Event& event, Handles... handles) { static_assert(sizeof...(handles) >= 2, \"Number of futures must be at least two\"); const auto wait_count = [&] { if constexpr (!Event::kShared) { auto setter = [&](auto handle) { return handle.SetCallback(event); }; return (... + static_cast<std::size_t>(setter(handles))); } else { auto setter = [&, callback_count = std::size_t{}](auto handle) mutable { if constexpr (std::is_same_v<decltype(handle), UniqueHandle>) { return handle.SetCallback(event); } else { return handle.SetCallback(event.callbacks[callback_count++]); } }; return (... + static_cast<std::size_t>(setter(handles))); } }(); event.count.fetch_sub(sizeof...(handles) - wait_count, std::memory_order_relaxed); } template <typename Event, typename It> void SetCallbacksDynamic(Event& event, It it, std::size_t count) { std::size_t wait_count = 0; for (std::size_t i = 0; i != count; ++i) { YACLIB_ASSERT(it->Valid()); if constexpr (std::is_same_v<decltype(it->GetHandle()), UniqueHandle>) { wait_count += static_cast<std::size_t>(it->GetHandle().SetCallback(event)); } else { wait_count += static_cast<std::size_t>(it->GetHandle().SetCallback(event.callbacks[i])); } ++it; } event.count.fetch_sub(count - wait_count, std::memory_order_relaxed); } }"
-
-def CoSrc_wait_event_hpp : String :=
-  "#pragma once #include <yaclib/algo/detail/inline_core.hpp> #include <yaclib/algo/detail/shared_event.hpp> #include <yaclib/util/cast.hpp> #include <yaclib/util/detail/set_deleter.hpp> namespace yaclib::detail { template <typename Derived> struct CallCallback : InlineCore { CallCallback& GetCall() noexcept { return *this; } private: template <bool SymmetricTransfer> [[nodiscard]] YACLIB_INLINE auto Impl() noexcept { DownCast<Derived>(*this).Sub(1); return Noop<SymmetricTransfer>(); } public: [[nodiscard]] InlineCore* Here(InlineCore& ) noexcept final { return Impl<false>(); } #if YACLIB_SYMMETRIC_TRANSFER != 0 [[nodiscard]] yaclib_std::coroutine_handle<> Next(InlineCore& ) noexcept final { return Impl<true>(); } #endif }; template <typename Derived> struct DropCallback : InlineCore { DropCallback& GetDrop() noexcept { return *this; } private: template <bool SymmetricTransfer> [[nodiscard]] YACLIB_INLINE auto Impl(InlineCore& caller) noexcept { caller.DecRef(); DownCast<Derived>(*this).Sub(1); return Noop<SymmetricTransfer>(); } public: [[nodiscard]] InlineCore* Here(InlineCore& caller) noexcept final { return Impl<false>(caller); } #if YACLIB_SYMMETRIC_TRANSFER != 0 [[nodiscard]] yaclib_std::coroutine_handle<> Next(InlineCore& caller) noexcept final { return Impl<true>(caller); } #endif }; template <typename Event, template <typename...> typename Counter, template <typename...> typename... Callbacks> struct MultiEvent : Counter<Event, SetDeleter>, Callbacks<MultiEvent<Event, Counter, Callbacks...>>... { static constexpr bool kShared = false; using Counter<Event, SetDeleter>::Counter; }; }"
-
-def CoSrc_wait_impl_hpp : String :=
-  "#pragma once #include <yaclib/algo/detail/base_core.hpp> #include <yaclib/algo/detail/wait_event.hpp> #include <yaclib/util/detail/atomic_counter.hpp> #include <yaclib/util/detail/default_event.hpp> #include <yaclib/util/detail/set_deleter.hpp> #include <yaclib/util/detail/unique_counter.hpp> #include <yaclib/util/type_traits.hpp> #include <cstddef> #include <iterator> #include <type_traits> namespace yaclib::detail { struct NoTimeoutTag final {}; template <typename Event, typename Timeout, typename Range> bool WaitRange(Event& event, const Timeout& timeout, Range&& range, std::size_t count) noexcept { const auto wait_count = [&] { if constexpr (Event::kShared) { return range([&, callback_count = std::size_t{}](auto handle) mutable noexcept { if constexpr (std::is_same_v<UniqueHandle, decltype(handle)>) { return handle.SetCallback(event.GetCall()); } else { return handle.SetCallback(event.callbacks[callback_count++]); } }); } else { return range([&](auto handle) noexcept { return handle.SetCallback(event.GetCall()); }); } }(); if (wait_count == 0 || event.SubEqual(count - wait_count + 1)) { return true; } auto token = event.Make(); std::size_t reset_count = 0; if constexpr (!std::is_same_v<Timeout, NoTimeoutTag>) { if (event.Wait(token, timeout)) { return true; } reset_count = range([](UniqueHandle handle) noexcept { return handle.Reset(); }); if (reset_count != 0 && (reset_count == wait_count || event.SubEqual(reset_count))) { return false; } } event.Wait(token); return reset_count == 0; } template <typename Event, typename Timeout, typename... Handles> bool WaitCore(const Timeout& timeout, Handles... handles) noexcept { static_assert(sizeof...(handles) >= 1, \"Number of futures must be at least one\"); static constexpr std::size_t kSharedCount = kCount<SharedHandle, Handles...>; static_assert(kSharedCount == 0 || std::is_same_v<Timeout, NoTimeoutTag>); auto range = [&](auto&& func) noexcept { return (... + static_cast<std::size_t>(func(handles))); }; using CoreEvent = std::conditional_t<sizeof...(handles) == 1, MultiEvent<Event, OneCounter, CallCallback>, MultiEvent<Event, AtomicCounter, CallCallback>>; using FinalEvent = std::conditional_t<kSharedCount <= 1, CoreEvent, StaticSharedEvent<CoreEvent, kSharedCount>>; FinalEvent event{sizeof...(handles) + 1}; return WaitRange(event, timeout, range, sizeof...(handles)); } template <typename Event, typename Timeout, typename Iterator> bool WaitIterator(const Timeout& timeout, Iterator it, std::size_t count) noexcept { static_assert(is_waitable_v<typename std::iterator_traits<Iterator>::value_type>, \"Wait function Iterator must be point to some Waitable (Future or SharedFuture)\"); static constexpr bool kShared = std::is_same_v<decltype(it->GetHandle()), SharedHandle>; if (count == 0) { return true; } if (count == 1) { YACLIB_ASSERT(it->Valid()); return WaitCore<Event>(timeout, it->GetHandle()); } auto range = [&](auto&& func) noexcept { std::size_t wait_count = 0; std::conditional_t<std::is_same_v<Timeout, NoTimeoutTag>, Iterator&, Iterator> range_it = it; for (std::size_t i = 0; i != count; ++i) { YACLIB_ASSERT(range_it->Valid()); wait_count += static_cast<std::size_t>(func(range_it->GetHandle())); ++range_it; } return wait_count; }; using CoreEvent = MultiEvent<Event, AtomicCounter, CallCallback>; using FinalEvent = std::conditional_t<kShared, DynamicSharedEvent<CoreEvent>, CoreEvent>; FinalEvent event{count + 1}; return WaitRange(event, timeout, range, count); } extern template bool WaitCore<DefaultEvent, NoTimeoutTag, UniqueHandle>(const NoTimeoutTag&, UniqueHandle) noexcept; extern template bool WaitCore<DefaultEvent, NoTimeoutTag, SharedHandle>(const NoTimeoutTag&, SharedHandle) noexcept; }"
 
 end Yaclib.Skeletons
